@@ -656,3 +656,449 @@ Section ViewInd.
               end) kids)
     end.
 End ViewInd.
+
+(** ** small facts about rendered pieces *)
+Lemma dec_fuel_nonempty f : forall n acc, acc <> [] -> dec_fuel f n acc <> [].
+Proof.
+  induction f as [|f IH]; intros n acc Ha; cbn [dec_fuel]; [assumption|].
+  destruct (n <? 10); [discriminate | apply IH; discriminate].
+Qed.
+Lemma dec_nonempty n : dec n <> [].
+Proof. unfold dec. cbn [dec_fuel]. destruct (n <? 10); [discriminate | apply dec_fuel_nonempty; discriminate]. Qed.
+Lemma dec_z_nonempty z : dec_z z <> [].
+Proof. destruct z; cbn [dec_z]; [discriminate | apply dec_nonempty | discriminate]. Qed.
+Lemma utf8_nonempty c : utf8 c <> [].
+Proof. unfold utf8. repeat match goal with |- context [if ?b then _ else _] => destruct b end; discriminate. Qed.
+
+Lemma encode_text_nonempty s : s <> [] -> encode_text s <> [].
+Proof.
+  destruct s as [|c s]; [contradiction|]. intros _. cbn [encode_text flat_map]. unfold esc_text_byte.
+  repeat match goal with |- context [if ?b then _ else _] => destruct b end; discriminate.
+Qed.
+
+Lemma shown_nonempty v : text_like v = true -> shown v <> [].
+Proof.
+  destruct v as [s|c|z| |t a k]; cbn [text_like shown leaf_or_empty leaf_text]; try discriminate; intros _.
+  - destruct s; discriminate.
+  - apply utf8_nonempty.
+  - apply dec_z_nonempty.
+Qed.
+
+Definition sep_bytes (p : pos) : bytes := match p with AfterText => marker | _ => [] end.
+
+Lemma render_text_like p v :
+  text_like v = true -> render true p v = (sep_bytes p ++ encode_text (shown v), AfterText).
+Proof.
+  destruct v as [s|c|z| |t a k]; cbn [text_like]; try discriminate; intros _;
+    cbn [render leaf_text shown leaf_or_empty]; f_equal; f_equal.
+  destruct s; reflexivity.
+Qed.
+
+Lemma toks_text_like p v :
+  text_like v = true -> toks p v = (sep_toks p ++ chars_toks (norm_body (shown v)), AfterText).
+Proof. destruct v; cbn [text_like]; try discriminate; reflexivity. Qed.
+
+Lemma stops_marker x : stops MBody (marker ++ x).
+Proof. right. eexists. split; reflexivity. Qed.
+Lemma stops_start_tag t x : stops MBody (60 :: tag_name t ++ x).
+Proof. right. eexists. split; [reflexivity | apply start_tag_starts]. Qed.
+Lemma stops_end_tag x : stops MBody ([60; 47] ++ x).
+Proof. right. eexists. split; reflexivity. Qed.
+
+Lemma stops_render_list l tail :
+  stops MBody tail -> stops MBody (render_list true AfterText l ++ tail).
+Proof.
+  intros Hs. destruct l as [|k l]; [exact Hs|]. cbn [render_list].
+  destruct k as [s|c|z| |t a kids].
+  - rewrite (render_text_like AfterText (VText s) eq_refl). cbn [sep_bytes]. rewrite <- !app_assoc. apply stops_marker.
+  - rewrite (render_text_like AfterText (VChar c) eq_refl). cbn [sep_bytes]. rewrite <- !app_assoc. apply stops_marker.
+  - rewrite (render_text_like AfterText (VNum z) eq_refl). cbn [sep_bytes]. rewrite <- !app_assoc. apply stops_marker.
+  - cbn [render]. rewrite <- app_assoc. apply stops_marker.
+  - rewrite render_el. rewrite <- !app_assoc. cbn [app]. apply stops_start_tag.
+Qed.
+
+Lemma strip_ci_self nm x : lower_name nm -> strip_ci nm (nm ++ x) = Some x.
+Proof.
+  induction 1 as [|c nm Hc _ IH]; [reflexivity|]. cbn [app strip_ci].
+  destruct (lower_props c Hc) as (_ & _ & Hl). rewrite Hl, N.eqb_refl. exact IH.
+Qed.
+
+Lemma is_end_tag_self t x : is_end_tag_for (tag_name t) (47 :: tag_name t ++ 62 :: x) = true.
+Proof. unfold is_end_tag_for. now rewrite (strip_ci_self _ _ (tag_name_lower t)). Qed.
+
+Lemma render_list_raw l : forall p,
+  forallb text_like l = true -> render_list false p l = raw_text l.
+Proof.
+  induction l as [|k l IH]; intros p H; [reflexivity|].
+  cbn [forallb] in H. apply andb_true_iff in H. destruct H as [Hk Hl].
+  cbn [render_list raw_text].
+  destruct k as [s|c|z| |t a kids]; cbn [text_like] in Hk; try discriminate;
+    cbn [render leaf_text]; rewrite IH by assumption.
+  - destruct p; destruct s; reflexivity.
+  - destruct p; reflexivity.
+  - destruct p; reflexivity.
+Qed.
+
+Lemma length_app_lt (h : bytes) x : h <> [] -> (length x < length (h ++ x))%nat.
+Proof. intros H. rewrite app_length. destruct h; [contradiction | cbn [length]; lia]. Qed.
+
+(** ** the main induction: a rendered view tokenizes to the tokens of the view *)
+Definition TokP (v : view) : Prop :=
+  forall p tail more,
+    view_ok v = true -> known_class v = false ->
+    (text_like v = true -> stops MBody tail) ->
+    Toks tail more ->
+    Toks (fst (render true p v) ++ tail) (fst (toks p v) ++ more).
+
+Lemma pos_agree v p : snd (render true p v) = snd (toks p v).
+Proof. destruct v; reflexivity. Qed.
+
+Lemma Toks_step1 inp tok rest more :
+  inp <> [] -> next_tokens inp = Some ([tok], rest) -> (length rest < length inp)%nat ->
+  Toks rest more -> Toks inp (tok :: more).
+Proof. intros. change (tok :: more) with ([tok] ++ more). now eapply Toks_step; eauto. Qed.
+Lemma Toks_step2 inp tok1 tok2 rest more :
+  inp <> [] -> next_tokens inp = Some ([tok1; tok2], rest) -> (length rest < length inp)%nat ->
+  Toks rest more -> Toks inp (tok1 :: tok2 :: more).
+Proof. intros. change (tok1 :: tok2 :: more) with ([tok1; tok2] ++ more). now eapply Toks_step; eauto. Qed.
+
+Lemma Toks_end_tag t tail more :
+  Toks tail more -> Toks ([60; 47] ++ tag_name t ++ 62 :: tail) (TEnd (tag_name t) :: more).
+Proof.
+  intros H. change (TEnd (tag_name t) :: more) with ([TEnd (tag_name t)] ++ more).
+  eapply Toks_step; [discriminate | apply end_tag_tokens | | exact H].
+  cbn [app length]. rewrite app_length. cbn [length]. lia.
+Qed.
+
+Lemma Toks_marker x more : Toks x more -> Toks (marker ++ x) (TComment [] :: more).
+Proof.
+  intros H. change (TComment [] :: more) with ([TComment []] ++ more).
+  eapply Toks_step; [discriminate | apply marker_tokens | | exact H].
+  unfold marker. cbn [app length]. lia.
+Qed.
+
+Lemma TokP_text_like v : text_like v = true -> TokP v.
+Proof.
+  intros Ht p tail more _ _ Hs Hm. specialize (Hs Ht).
+  rewrite (render_text_like p v Ht), (toks_text_like p v Ht). cbn [fst snd].
+  assert (Htxt : Toks (encode_text (shown v) ++ tail) (chars_toks (norm_body (shown v)) ++ more)).
+  { eapply Toks_step; [| | |exact Hm].
+    - intros E. apply app_eq_nil in E. destruct E as [E _].
+      now apply (encode_text_nonempty _ (shown_nonempty v Ht)).
+    - apply next_tokens_text; [apply encode_text_nonempty, shown_nonempty, Ht|].
+      now apply text_roundtrip.
+    - apply length_app_lt, encode_text_nonempty, shown_nonempty, Ht. }
+  destruct p; cbn [sep_bytes sep_toks app]; try exact Htxt.
+  rewrite <- app_assoc. now apply Toks_marker.
+Qed.
+
+Lemma TokP_unit : TokP VUnit.
+Proof.
+  intros p tail more _ _ _ Hm. cbn [render toks fst snd].
+  now apply Toks_marker.
+Qed.
+
+Lemma TokP_list l :
+  Forall TokP l -> forall p tail more,
+  forallb view_ok l = true -> forallb (fun k => negb (known_class k)) l = true ->
+  stops MBody tail -> Toks tail more ->
+  Toks (render_list true p l ++ tail) (toks_list p l ++ more).
+Proof.
+  induction 1 as [|k l Hk _ IH]; intros p tail more Hok Hkn Hs Hm; [exact Hm|].
+  cbn [forallb] in Hok, Hkn. apply andb_true_iff in Hok, Hkn.
+  destruct Hok as [Hok1 Hok2]. destruct Hkn as [Hkn1 Hkn2]. apply negb_true_iff in Hkn1.
+  cbn [render_list toks_list].
+  destruct (render true p k) as [h p1] eqn:Er. destruct (toks p k) as [ts p2] eqn:Et.
+  rewrite <- !app_assoc.
+  assert (Htail : text_like k = true -> stops MBody (render_list true p1 l ++ tail)).
+  { intros Ht. rewrite (render_text_like p k Ht) in Er. injection Er as _ <-. now apply stops_render_list. }
+  assert (Hp := pos_agree k p). rewrite Er, Et in Hp. cbn [snd] in Hp. subst p2.
+  assert (H1 := Hk p (render_list true p1 l ++ tail) (toks_list p1 l ++ more) Hok1 Hkn1 Htail).
+  rewrite Er, Et in H1. cbn [fst] in H1. apply H1. now apply IH.
+Qed.
+
+Lemma TokP_el t attrs kids : Forall TokP kids -> TokP (VEl t attrs kids).
+Proof.
+  intros Hkids p tail more Hok Hkn _ Hm.
+  destruct (view_ok_el t attrs kids Hok) as (Hattrs & Hkok & Hshape).
+  destruct (known_class_el t attrs kids Hkn) as (Hraw & Hkkn).
+  rewrite render_el, toks_el. cbn [fst snd].
+  rewrite <- !app_assoc. cbn [app].
+  (* the start tag *)
+  assert (Hstart : forall X,
+    next_tokens (60 :: tag_name t ++ attrs_html attrs ++ 62 :: X)
+    = markup_tokens (60 :: tag_name t ++ attrs_html attrs ++ 62 :: X)).
+  { intros X. apply next_tokens_markup, start_tag_starts. }
+  assert (Hlen : forall (X Y : bytes), Nat.le (length Y) (length X) ->
+    Nat.lt (length Y) (length (60 :: tag_name t ++ attrs_html attrs ++ 62 :: X))).
+  { intros X Y H. cbn [length]. rewrite !app_length. cbn [length]. lia. }
+  destruct t; cbn [is_void escape_children] in *;
+    repeat rewrite <- app_assoc; cbn [app]; repeat rewrite <- app_assoc; cbn [app].
+  - (* div *)
+    eapply Toks_step1; [discriminate | rewrite Hstart, (start_tag_tokens Div attrs _ Hattrs); reflexivity | apply Hlen; lia |].
+    apply (TokP_list kids Hkids); try assumption; [apply stops_end_tag | now apply (Toks_end_tag Div)].
+  - (* span *)
+    eapply Toks_step1; [discriminate | rewrite Hstart, (start_tag_tokens Span attrs _ Hattrs); reflexivity | apply Hlen; lia |].
+    apply (TokP_list kids Hkids); try assumption; [apply stops_end_tag | now apply (Toks_end_tag Span)].
+  - (* section *)
+    eapply Toks_step1; [discriminate | rewrite Hstart, (start_tag_tokens Section attrs _ Hattrs); reflexivity | apply Hlen; lia |].
+    apply (TokP_list kids Hkids); try assumption; [apply stops_end_tag | now apply (Toks_end_tag Section)].
+  - (* input *)
+    eapply Toks_step1; [discriminate | rewrite Hstart, (start_tag_tokens Input attrs _ Hattrs); reflexivity | apply Hlen; lia | exact Hm].
+  - (* br *)
+    eapply Toks_step1; [discriminate | rewrite Hstart, (start_tag_tokens Br attrs _ Hattrs); reflexivity | apply Hlen; lia | exact Hm].
+  - (* img *)
+    eapply Toks_step1; [discriminate | rewrite Hstart, (start_tag_tokens Img attrs _ Hattrs); reflexivity | apply Hlen; lia | exact Hm].
+  - (* textarea: the content is the escaped raw text of the children *)
+    rewrite (render_list_raw kids FirstChild Hshape).
+    eapply Toks_step2; [discriminate | | | apply (Toks_end_tag Textarea), Hm].
+    + rewrite Hstart, (start_tag_tokens Textarea attrs _ Hattrs).
+      change (classify (tag_name Textarea)) with KRcdata. cbv iota.
+      rewrite rcdata_roundtrip; [reflexivity|].
+      eexists. split; [reflexivity | apply (is_end_tag_self Textarea)].
+    + apply Hlen. cbn [app]. rewrite !app_length. cbn [app length]. rewrite ?app_length. cbn [length]. lia.
+  - (* title: at most one text-like child, rendered as in an ordinary element *)
+    assert (Hinner : render_list true FirstChild kids = encode_text (title_text kids)).
+    { destruct kids as [|k [|k2 ks]]; [reflexivity | | discriminate].
+      cbn [render_list title_text]. rewrite (render_text_like FirstChild k Hshape). cbn [sep_bytes app].
+      now rewrite app_nil_r. }
+    rewrite Hinner.
+    eapply Toks_step2; [discriminate | | | apply (Toks_end_tag Title), Hm].
+    + rewrite Hstart, (start_tag_tokens Title attrs _ Hattrs).
+      change (classify (tag_name Title)) with KRcdata. cbv iota.
+      rewrite rcdata_roundtrip; [reflexivity|].
+      eexists. split; [reflexivity | apply (is_end_tag_self Title)].
+    + apply Hlen. cbn [app]. rewrite !app_length. cbn [app length]. rewrite ?app_length. cbn [length]. lia.
+  - (* script *)
+    rewrite (render_list_raw kids FirstChild Hshape).
+    cbn [raw_breakout] in Hraw. apply orb_false_iff in Hraw. destruct Hraw as [Hr1 Hr2].
+    eapply Toks_step2; [discriminate | | | apply (Toks_end_tag ScriptT), Hm].
+    + rewrite Hstart, (start_tag_tokens ScriptT attrs _ Hattrs).
+      change (classify (tag_name ScriptT)) with KRaw. cbv iota.
+      rewrite (raw_roundtrip (tag_name ScriptT) (raw_text kids) false
+                 (47 :: tag_name ScriptT ++ 62 :: tail) (tag_name_lower ScriptT) (is_end_tag_self ScriptT tail) Hr1 (fun _ => Hr2)).
+      reflexivity.
+    + apply Hlen. cbn [app]. rewrite !app_length. cbn [app length]. rewrite ?app_length. cbn [length]. lia.
+  - (* style *)
+    rewrite (render_list_raw kids FirstChild Hshape).
+    cbn [raw_breakout] in Hraw.
+    eapply Toks_step2; [discriminate | | | apply (Toks_end_tag StyleT), Hm].
+    + rewrite Hstart, (start_tag_tokens StyleT attrs _ Hattrs).
+      change (classify (tag_name StyleT)) with KRaw. cbv iota.
+      rewrite (raw_roundtrip (tag_name StyleT) (raw_text kids) false
+                 (47 :: tag_name StyleT ++ 62 :: tail) (tag_name_lower StyleT) (is_end_tag_self StyleT tail) Hraw).
+      * reflexivity.
+      * intros Hb. discriminate Hb.
+    + apply Hlen. cbn [app]. rewrite !app_length. cbn [app length]. rewrite ?app_length. cbn [length]. lia.
+Qed.
+
+Lemma TokP_all v : TokP v.
+Proof.
+  induction v using view_ind'.
+  - now apply TokP_text_like.
+  - now apply TokP_text_like.
+  - now apply TokP_text_like.
+  - apply TokP_unit.
+  - now apply TokP_el.
+Qed.
+
+(** * tree construction on the tokens of a view *)
+Fixpoint push_nodes (ns : list node) (stack : list frame) (top : list node) : list frame * list node :=
+  match ns with
+  | [] => (stack, top)
+  | n :: ns' => let '(st, tp) := push_node n stack top in push_nodes ns' st tp
+  end.
+
+Lemma push_nodes_app a b stack top :
+  push_nodes (a ++ b) stack top = let '(st, tp) := push_nodes a stack top in push_nodes b st tp.
+Proof.
+  revert stack top. induction a as [|n a IH]; intros stack top; [reflexivity|].
+  cbn [app push_nodes]. destruct (push_node n stack top). apply IH.
+Qed.
+
+Lemma push_nodes_frame ns fr st top :
+  push_nodes ns (fr :: st) top
+  = ({| fr_name := fr_name fr; fr_attrs := fr_attrs fr; fr_kids := fr_kids fr ++ ns |} :: st, top).
+Proof.
+  revert fr. induction ns as [|n ns IH]; intros fr.
+  - cbn [push_nodes]. rewrite app_nil_r. now destruct fr.
+  - cbn [push_nodes push_node]. rewrite IH. cbn [fr_name fr_attrs fr_kids]. now rewrite <- app_assoc.
+Qed.
+
+Lemma push_nodes_top ns top : push_nodes ns [] top = ([], top ++ ns).
+Proof.
+  revert top. induction ns as [|n ns IH]; intros top; cbn [push_nodes push_node].
+  - now rewrite app_nil_r.
+  - rewrite IH. now rewrite <- app_assoc.
+Qed.
+
+Lemma tree_el p t attrs kids :
+  tree p (VEl t attrs kids) =
+  ([NEl (tag_name t) (tree_attrs attrs)
+      (if is_void t then []
+       else match t with
+            | Textarea => text_nodes (drop_lf (norm_attr (raw_text kids)))
+            | ScriptT | StyleT => text_nodes (norm_attr (raw_text kids))
+            | Title => text_nodes (norm_attr (title_text kids))
+            | _ => tree_list FirstChild kids
+            end)], NextChild).
+Proof.
+  assert (E : forall p0 l,
+    (fix go (p : pos) (l : list view) {struct l} : list node :=
+       match l with
+       | [] => []
+       | k :: l' => let '(ns, p') := tree p k in ns ++ go p' l'
+       end) p0 l = tree_list p0 l).
+  { intros p0 l. revert p0. induction l as [|k l IH]; intros p0; [reflexivity|].
+    cbn [tree_list]. destruct (tree p0 k). now rewrite IH. }
+  cbn [tree]. rewrite E. destruct t; cbn [is_void]; try reflexivity.
+  destruct kids as [|k [|k2 ks]]; try reflexivity.
+  all: cbn [title_text shown leaf_or_empty]; destruct k as [[|c s]|c|z| |t' a' k']; reflexivity.
+Qed.
+
+Lemma build_chars s more stack top :
+  build (chars_toks s ++ more) stack top
+  = let '(st, tp) := push_nodes (text_nodes s) stack top in build more st tp.
+Proof.
+  destruct s as [|c s]; [reflexivity|]. cbn [chars_toks text_nodes app build push_nodes].
+  now destruct (push_node (NText (c :: s)) stack top).
+Qed.
+
+Definition BuildP (v : view) : Prop :=
+  forall p more stack top,
+    view_ok v = true ->
+    build (fst (toks p v) ++ more) stack top
+    = let '(st, tp) := push_nodes (fst (tree p v)) stack top in build more st tp.
+
+Lemma tree_pos_agree v p : snd (toks p v) = snd (tree p v).
+Proof. destruct v; reflexivity. Qed.
+
+Lemma shown_norm v :
+  text_like v = true ->
+  norm_body (shown v) = match v with VText [] => [32] | _ => norm_body (leaf_or_empty v) end.
+Proof. destruct v as [[|c s]|c|z| |t a k]; cbn [text_like]; try discriminate; reflexivity. Qed.
+
+Lemma BuildP_text_like v : text_like v = true -> BuildP v.
+Proof.
+  intros Ht p more stack top _. rewrite (toks_text_like p v Ht). cbn [fst].
+  assert (Et : fst (tree p v) = (match p with AfterText => [NComment []] | _ => [] end)
+                                ++ text_nodes (norm_body (shown v))).
+  { rewrite (shown_norm v Ht). destruct v as [[|c s]|c|z| |t a k]; cbn [text_like] in Ht; try discriminate; reflexivity. }
+  rewrite Et. rewrite <- app_assoc, push_nodes_app.
+  destruct p; cbn [sep_toks app push_nodes]; try apply build_chars.
+  cbn [build]. destruct (push_node (NComment []) stack top). apply build_chars.
+Qed.
+
+Lemma BuildP_list l :
+  Forall BuildP l -> forall p more stack top,
+  forallb view_ok l = true ->
+  build (toks_list p l ++ more) stack top
+  = let '(st, tp) := push_nodes (tree_list p l) stack top in build more st tp.
+Proof.
+  induction 1 as [|k l Hk _ IH]; intros p more stack top Hok; [reflexivity|].
+  cbn [forallb] in Hok. apply andb_true_iff in Hok. destruct Hok as [Hk1 Hl].
+  cbn [toks_list tree_list].
+  assert (Hp := tree_pos_agree k p).
+  destruct (toks p k) as [ts p1] eqn:Et. destruct (tree p k) as [ns p2] eqn:En. cbn [snd] in Hp. subst p2.
+  rewrite <- app_assoc. specialize (Hk p (toks_list p1 l ++ more) stack top Hk1).
+  rewrite Et, En in Hk. cbn [fst] in Hk. rewrite Hk. rewrite push_nodes_app.
+  destruct (push_nodes ns stack top) as [st tp]. now apply IH.
+Qed.
+
+Lemma classify_tag t :
+  classify (tag_name t) =
+  match t with
+  | Div | Span | Section => KOrdinary
+  | Input | Br | Img => KVoid
+  | Textarea | Title => KRcdata
+  | ScriptT | StyleT => KRaw
+  end.
+Proof. destruct t; reflexivity. Qed.
+
+Lemma beq_refl_name t : beq (tag_name t) (tag_name t) = true.
+Proof. destruct t; reflexivity. Qed.
+
+(** a text-only element: start tag, its text, end tag *)
+Lemma build_text_element t attrs content more stack top :
+  (match classify (tag_name t) with KRcdata | KRaw => True | _ => False end) ->
+  build (TStart (tag_name t) attrs :: TChars content :: TEnd (tag_name t) :: more) stack top
+  = let '(st, tp) := push_node (NEl (tag_name t) attrs (text_nodes content)) stack top in build more st tp.
+Proof.
+  intros Hc. cbn [build]. destruct (classify (tag_name t)) eqn:E; try contradiction;
+    destruct content as [|c s]; cbn [build push_node fr_name fr_attrs fr_kids text_nodes app];
+    rewrite beq_refl_name; reflexivity.
+Qed.
+
+Lemma BuildP_el t attrs kids : Forall BuildP kids -> BuildP (VEl t attrs kids).
+Proof.
+  intros Hkids p more stack top Hok.
+  destruct (view_ok_el t attrs kids Hok) as (_ & Hkok & _).
+  rewrite toks_el, tree_el. cbn [fst push_nodes].
+  destruct t; cbn [is_void app].
+  1-3: cbn [build]; rewrite classify_tag; cbv iota; rewrite <- app_assoc;
+       rewrite (BuildP_list kids Hkids FirstChild _ _ top Hkok); rewrite push_nodes_frame;
+       cbn [fr_name fr_attrs fr_kids app build]; rewrite beq_refl_name;
+       now destruct (push_node _ stack top).
+  1-3: cbn [build]; rewrite classify_tag; cbv iota; now destruct (push_node _ stack top).
+  all: rewrite build_text_element by (rewrite classify_tag; exact I);
+       now destruct (push_node _ stack top).
+Qed.
+
+Lemma BuildP_all v : BuildP v.
+Proof.
+  induction v using view_ind'.
+  - now apply BuildP_text_like.
+  - now apply BuildP_text_like.
+  - now apply BuildP_text_like.
+  - intros p more stack top _. cbn [toks tree fst app build push_nodes]. now destruct (push_node (NComment []) stack top).
+  - now apply BuildP_el.
+Qed.
+
+(** * the theorems *)
+(** for every view of the grammar with arbitrary byte strings in every string-valued position,
+    outside the class of open finding F-C06-b, the HTML that is emitted parses to exactly the
+    tree of the view: the element structure is the view's, the text and attribute values are
+    the strings (modulo HTML's own NUL / newline rules); in particular the parse succeeds, so
+    nothing in the output leaves the transcribed subset of the parsing algorithm *)
+Lemma render_parses_except_known v :
+  view_ok v = true -> known_class v = false ->
+  parse_fragment (to_html v) = Some (tree_of v).
+Proof.
+  intros Hok Hkn. unfold parse_fragment, to_html, tree_of.
+  assert (HT := TokP_all v FirstChild [] [] Hok Hkn (fun _ => or_introl eq_refl) Toks_nil).
+  rewrite !app_nil_r in HT.
+  rewrite (Toks_tokenize _ _ HT _ (le_n _)).
+  assert (HB := BuildP_all v FirstChild [] [] [] Hok). rewrite app_nil_r in HB. rewrite HB.
+  rewrite push_nodes_top. reflexivity.
+Qed.
+
+Definition str_script_breakout : bytes :=   (* </script><img src=^x^><script>, ^ = double quote *)
+  [60; 47; 115; 99; 114; 105; 112; 116; 62; 60; 105; 109; 103; 32; 115; 114; 99; 61; 34; 120; 34; 62; 60; 115; 99; 114; 105; 112; 116; 62].
+
+(** open finding F-C06-b: a string child of script (or style) that contains the element's end
+    tag ends it; here the data injects an img element *)
+Example render_parses_refuted :
+  exists v, view_ok v = true /\ known_class v = true /\
+    parse_fragment (to_html v)
+    = Some [NEl script_name [] []; NEl [105; 109; 103] [([115; 114; 99], [120])] []; NEl script_name [] []]
+    /\ tree_of v = [NEl script_name [] [NText str_script_breakout]].
+Proof.
+  exists (VEl ScriptT [] [VText str_script_breakout]).
+  repeat split; vm_compute; reflexivity.
+Qed.
+
+(** the hypotheses are satisfiable by a view that exercises every position *)
+Definition hostile06 : bytes := [34; 39; 62; 60; 47; 116; 105; 116; 108; 101; 62; 38; 97; 109; 112; 59; 0; 13; 10].
+Definition demo_view : view :=
+  VEl Div [AStr [116; 105; 116; 108; 101] hostile06; ABool [104; 105; 100; 100; 101; 110] true; AClass hostile06;
+           AToggle hostile06 true; AStyle hostile06; AProp [99; 111; 108; 111; 114] hostile06; AId hostile06]
+    [VText hostile06; VText []; VChar 60; VNum (-5)%Z; VUnit;
+     VEl Textarea [] [VText hostile06; VChar 38];
+     VEl Title [] [VText hostile06];
+     VEl ScriptT [] [VText [97; 60; 98; 38; 99]];
+     VEl Input [AStr [118; 97; 108; 117; 101] hostile06] [];
+     VEl Span [] [VText hostile06]].
+Example render_parses_nonvacuous :
+  view_ok demo_view = true /\ known_class demo_view = false /\
+  parse_fragment (to_html demo_view) = Some (tree_of demo_view).
+Proof. repeat split; vm_compute; reflexivity. Qed.
